@@ -4,7 +4,8 @@ C19 — Rendering is a pure function of its inputs.  Property theorems only (hel
 Sections
   1 zoom_linear     every coordinate of `generate_pdf` is `zoom ×` its value at zoom 1 (BleedBox: while the 10 pt
                     cap is not reached — `Witness.C19.bleedbox_cap_not_linear`), the page rectangle ignores zoom
-  2 copy_pages      `Document.copy(pages)` + `resolve_links` + the page loop write exactly the selected pages
+  2 copy_pages      `Document.copy(pages)` + `resolve_links` + the page loop write exactly the selected pages (every
+                    variant; an empty selection as `pdf/ua-1` fails — `Witness.C19.pdfua_empty_selection_fails`)
   3 three_sinks     the three targets of `write_pdf` get one `pdf.write` with identical arguments
   5 fresh_state     successive renders share no object the caller did not hand in; generated module-state whitelist
   4 cache_transparent  a shared image cache returns the cold value (fixed options, deterministic fetcher); the key
@@ -438,11 +439,11 @@ theorem copy_all_pages (d : Document) : (copy d .all).pages = d.pages := rfl
 
 theorem copy_selected_pages (d : Document) (ps : List Page) : (copy d (.pages ps)).pages = ps := rfl
 
-/-- `copy` passes on metadata, fetcher and font configuration, and nothing else of the document. -/
+/-- `copy` passes on metadata, fetcher, font configuration and the source HTML (repaired: `copy-drops-html`). -/
 theorem copy_keeps (d : Document) (s : Sel) :
     (copy d s).metadata = d.metadata ∧ (copy d s).urlFetcher = d.urlFetcher ∧
-    (copy d s).fontConfig = d.fontConfig := by
-  cases s <;> exact ⟨rfl, rfl, rfl⟩
+    (copy d s).fontConfig = d.fontConfig ∧ (copy d s).hasHtml = d.hasHtml := by
+  cases s <;> exact ⟨rfl, rfl, rfl, rfl⟩
 
 /-- A copy of a copy is the copy of the original with the last selection. -/
 theorem copy_copy (d : Document) (s : Sel) (ps : List Page) : copy (copy d s) (.pages ps) = copy d (.pages ps) := by
@@ -694,10 +695,10 @@ private theorem sortDests_names_perm (ds : List Dest) :
   unfold sortDests
   exact (List.mergeSort_perm ds _).map _
 
-/-- What a successful `generate_pdf` (any variant that does not need the HTML tree) writes for a page list: one page
-per page of the list with the boxes that page has in any document, its own links minus internal links to names not
-anchored in the list, and the first-occurrence destinations. -/
-theorem generatePdf_spec (z : Rat) (d : Document) (o : PdfOut) (h : generatePdf z false d = .ok o) :
+/-- What a successful `generate_pdf` (any variant) writes for a page list: one page per page of the list with the boxes
+that page has in any document, its own links minus internal links to names not anchored in the list, and the
+first-occurrence destinations. -/
+theorem generatePdf_spec (z : Rat) (ua : Bool) (d : Document) (o : PdfOut) (h : generatePdf z ua d = .ok o) :
     o.pages.map (fun pp => (pp.media, pp.trim, pp.bleed, pp.flipF, pp.paintScale)) =
       d.pages.map (fun p => (mediaBox (scale z) p, trimBox (scale z) p, bleedBox (scale z) p,
         p.height * scale z, scale z)) ∧
@@ -712,7 +713,11 @@ theorem generatePdf_spec (z : Rat) (d : Document) (o : PdfOut) (h : generatePdf 
   · cases h
   · split at h
     · cases h
-    · simp only [Bool.false_eq_true, false_and, if_false, Except.ok.injEq] at h
+    · split at h
+      · cases h
+      split at h
+      · cases h
+      simp only [Except.ok.injEq] at h
       subst h
       generalize d.pages = ps
       have hlen := resolveLinks_length ps
@@ -745,8 +750,7 @@ theorem generatePdf_spec (z : Rat) (d : Document) (o : PdfOut) (h : generatePdf 
         have := allDests_page (scale z) 0 ps (resolveLinks ps) dd ((mem_sortDests _ _).mp hdd)
         omega
 
-/-- **copy_pages**.  Full statement (false for `pdf/ua-1`, which needs the HTML tree that `copy` drops —
-`Witness.C19.copy_pdfua_fails`): for every variant.  Proved for the variants that do not read `document._html`.
+/-- **copy_pages** (full strength since `Document.copy` keeps the source HTML: every variant, `pdf/ua-1` included).
 Whenever `generate_pdf` succeeds on `document.copy(ps)`:
 * it writes one page per selected page, in the selected order, and the boxes / flip / paint scale of each are the ones
   that page has in any document (functions of the page alone: the same as in the PDF of the whole document,
@@ -754,8 +758,8 @@ Whenever `generate_pdf` succeeds on `document.copy(ps)`:
 * the link annotations of each page are its own links except internal links whose target is not anchored on a selected
   page — links to unselected pages are dropped, never left dangling;
 * the named destinations are exactly the anchor names of the selected pages, each once, on a page of the copy. -/
-theorem copy_pages_partial (z : Rat) (d : Document) (ps : List Page) (o : PdfOut)
-    (h : generatePdf z false (copy d (.pages ps)) = .ok o) :
+theorem copy_pages (z : Rat) (ua : Bool) (d : Document) (ps : List Page) (o : PdfOut)
+    (h : generatePdf z ua (copy d (.pages ps)) = .ok o) :
     o.pages.map (fun pp => (pp.media, pp.trim, pp.bleed, pp.flipF, pp.paintScale)) =
       ps.map (fun p => (mediaBox (scale z) p, trimBox (scale z) p, bleedBox (scale z) p,
         p.height * scale z, scale z)) ∧
@@ -765,31 +769,56 @@ theorem copy_pages_partial (z : Rat) (d : Document) (ps : List Page) (o : PdfOut
     (∀ n, n ∈ o.names.map (·.name) ↔ ∃ p ∈ ps, n ∈ p.anchors.map (·.name)) ∧
     (o.names.map (·.name)).Nodup ∧
     (∀ dd ∈ o.names, dd.page < ps.length) :=
-  generatePdf_spec z (copy d (.pages ps)) o h
+  generatePdf_spec z ua (copy d (.pages ps)) o h
 
 /-- Page `i` of the copy has exactly the boxes, flip and paint scale that the same page has as page `j` of the PDF of
 the whole document. -/
-theorem copy_geometry_agrees (z : Rat) (d : Document) (ps : List Page) (oFull oCopy : PdfOut)
-    (hf : generatePdf z false d = .ok oFull) (hc : generatePdf z false (copy d (.pages ps)) = .ok oCopy)
+theorem copy_geometry_agrees (z : Rat) (ua : Bool) (d : Document) (ps : List Page) (oFull oCopy : PdfOut)
+    (hf : generatePdf z ua d = .ok oFull) (hc : generatePdf z ua (copy d (.pages ps)) = .ok oCopy)
     (i j : Nat) (p : Page) (hi : ps[i]? = some p) (hj : d.pages[j]? = some p) :
     (oCopy.pages[i]?).map (fun pp => (pp.media, pp.trim, pp.bleed, pp.flipF, pp.paintScale)) =
     (oFull.pages[j]?).map (fun pp => (pp.media, pp.trim, pp.bleed, pp.flipF, pp.paintScale)) := by
-  have h1 := congrArg (fun l => l[i]?) (copy_pages_partial z d ps oCopy hc).1
-  have h2 := congrArg (fun l => l[j]?) (generatePdf_spec z d oFull hf).1
+  have h1 := congrArg (fun l => l[i]?) (copy_pages z ua d ps oCopy hc).1
+  have h2 := congrArg (fun l => l[j]?) (generatePdf_spec z ua d oFull hf).1
   simp only [List.getElem?_map, hi, hj, Option.map_some] at h1 h2
   rw [h1, h2]
 
-/-- `copy('all')` writes what the document itself writes (for variants that do not need the HTML tree). -/
-theorem copy_all_same_pdf (z : Rat) (d : Document) :
-    generatePdf z false (copy d .all) = generatePdf z false d := by
-  simp [generatePdf, copy]
+/-- `copy('all')` writes what the document itself writes, for every variant. -/
+theorem copy_all_same_pdf (z : Rat) (ua : Bool) (d : Document) :
+    generatePdf z ua (copy d .all) = generatePdf z ua d := rfl
 
-/-- The hypothesis of `copy_pages_partial` is satisfiable: `generate_pdf` succeeds on a copy. -/
-example : ∃ o, generatePdf 1 false (copy exampleDoc (.pages exampleDoc.pages)) = .ok o := by
-  have h1 : ¬ (scale 1 = 0 ∧ exampleDoc.pages ≠ []) := by
-    intro h; exact absurd h.1 (scale_ne_zero (by norm_num))
-  simp only [generatePdf, copy, if_neg h1]
-  exact ⟨_, rfl⟩
+/-- `generate_pdf` with a variant that reads the HTML tree (`pdf/ua-1`).  Full statement (false for an empty page
+list: `pdfua` reads its loop variable after a loop that never ran — `Witness.C19.pdfua_empty_selection_fails`):
+total for zoom ≠ 0, bookmark levels ≥ 1 and a document that has its source HTML.  Proved for at least one page. -/
+theorem generatePdf_pdfua_total_partial (z : Rat) (hz : z ≠ 0) (d : Document)
+    (hl : ∀ p ∈ d.pages, ∀ b ∈ p.bookmarks, 1 ≤ b.level) (hh : d.hasHtml = true) (hp : d.pages ≠ []) :
+    ∃ o, generatePdf z true d = .ok o := by
+  obtain ⟨out, h⟩ := docOutlines_ok (scale z) 0 ⟨[], 0⟩ d.pages (by simp [BmInv, sumL]) hl
+  have hs : ¬ (scale z = 0 ∧ d.pages ≠ []) := fun c => scale_ne_zero hz c.1
+  refine ⟨⟨pagesPdf (scale z) d.pages (resolveLinks d.pages),
+    sortDests (allDests (scale z) 0 d.pages (resolveLinks d.pages)), out⟩, ?_⟩
+  simp only [generatePdf, if_neg hs, h, hh, hp, and_false, if_false, Bool.true_eq_false]
+
+/-- The repair of `copy-drops-html` at theorem level: a non-empty selection of pages of a rendered document can be
+written as `pdf/ua-1` (the copy still has the source HTML). -/
+theorem copy_pdfua_succeeds (z : Rat) (hz : z ≠ 0) (d : Document) (ps : List Page)
+    (hl : ∀ p ∈ ps, ∀ b ∈ p.bookmarks, 1 ≤ b.level) (hh : d.hasHtml = true) (hp : ps ≠ []) :
+    ∃ o, generatePdf z true (copy d (.pages ps)) = .ok o :=
+  generatePdf_pdfua_total_partial z hz (copy d (.pages ps)) hl hh hp
+
+/-- Regression example for the repaired `copy-drops-html`: a rendered two-page document, `copy('all')` and the copy of
+its first page are all written as `pdf/ua-1`. -/
+example :
+    let d : Document := ⟨[⟨100, 80, ⟨0, 0, 0, 0⟩, [], [], []⟩, ⟨100, 80, ⟨0, 0, 0, 0⟩, [], [], []⟩], 1, 2, 3, true⟩
+    (generatePdf 1 true d).toBool = true ∧ (generatePdf 1 true (copy d .all)).toBool = true ∧
+    (generatePdf 1 true (copy d (.pages (d.pages.take 1)))).toBool = true := by
+  decide +kernel
+
+/-- The hypothesis of `copy_pages` is satisfiable: `generate_pdf` succeeds on a copy. -/
+example : (∃ o, generatePdf 1 false (copy exampleDoc (.pages exampleDoc.pages)) = .ok o) ∧
+    (∃ o, generatePdf 1 true (copy exampleDoc (.pages exampleDoc.pages)) = .ok o) :=
+  ⟨generatePdf_total 1 (by norm_num) _ (by decide),
+   copy_pdfua_succeeds 1 (by norm_num) exampleDoc exampleDoc.pages (by decide) rfl (by decide)⟩
 
 
 /-! ## 3 three sinks -/
